@@ -332,7 +332,7 @@ static const char *tokerr(enum json_tokener_error e)
 /* what a line reports */
 struct rep
 {
-	char res[256];
+	char res[4608];
 	int same;      /* 1, 0, or -1 = not applicable */
 	int failed;    /* the operation reported failure: errno class is printed */
 	int err;
@@ -843,8 +843,8 @@ static int wl_toknew(struct rep *r, int depth, long k1, long k2)
 	r->failed = !t;
 	if (t)
 	{
-		/* usable: parse something small */
-		struct json_object *o = json_tokener_parse_ex(t, "[1]", 4);
+		/* usable: parse something small (a scalar: depth 1 suffices) */
+		struct json_object *o = json_tokener_parse_ex(t, "17", 3);
 		r->same = o != NULL;
 		json_object_put(o);
 		json_tokener_free(t);
@@ -968,7 +968,7 @@ static int wl_parse(struct rep *r, char mode, int flags, int split, const char *
 	char *got = dump_str(o);
 	if (e1 == e0)
 		snprintf(r->res, sizeof r->res, "%s", strcmp(got, want) == 0 ? "normal" : "WRONG(same status, different value)");
-	else if (e0 == json_tokener_success && o == NULL && e1 != json_tokener_continue)
+	else if (o == NULL && e1 != json_tokener_success && e1 != json_tokener_continue)
 		snprintf(r->res, sizeof r->res, "fail(%s)", tokerr(e1));
 	else
 		snprintf(r->res, sizeof r->res, "WRONG(status %s instead of %s)", tokerr(e1), tokerr(e0));
@@ -998,10 +998,10 @@ static int wl_ser(struct rep *r, const char *tree, int flags, long k1, long k2)
 		snprintf(r->res, sizeof r->res, "text=full");
 	else
 	{
-		/* report what came back so that the model can be compared: length and a checksum-free hex prefix */
+		/* report what came back so that the model can be compared: lengths and the first 2000 bytes */
 		size_t tl = strlen(t), i, p = 0;
 		p += (size_t)snprintf(r->res + p, sizeof r->res - p, "text=TRUNC len=%zu/%zu got=", tl, want ? strlen(want) : 0);
-		for (i = 0; i < tl && p + 3 < sizeof r->res; i++)
+		for (i = 0; i < tl && i < 2000; i++)
 			p += (size_t)snprintf(r->res + p, sizeof r->res - p, "%02x", (unsigned char)t[i]);
 	}
 	char *post = dump_str(o);
